@@ -563,17 +563,31 @@ KERNEL_GROUPS = {
     'KernelsAnnot': [
         ('annot_variant.py', 'get_codon_range_offset', 'k_codon_range_offset', None),
     ],
+    # MAVE-HGVS strings: every function of mave_hgvs.py (f-strings, optional strings, the VariantType / MAVEPrefix enums of enums.py)
+    'KernelsMave': [
+        ('mave_hgvs.py', '_get_del_position', 'k_del_position', None),
+        ('mave_hgvs.py', '_get_delin_mave_nt_suffix', 'k_delin_suffix', None),
+        ('mave_hgvs.py', '_get_snv_mave_nt_suffix', 'k_snv_suffix', None),
+        ('mave_hgvs.py', '_get_substitution_mave_nt_suffix', 'k_substitution_suffix', None),
+        ('mave_hgvs.py', '_get_insertion_mave_nt_suffix', 'k_insertion_suffix', None),
+        ('mave_hgvs.py', '_raise_invalid_deletion', 'k_raise_invalid_deletion', None),
+        ('mave_hgvs.py', '_get_deletion_mave_nt_suffix', 'k_deletion_suffix', None),
+        ('mave_hgvs.py', '_get_mave_nt', 'k_mave_nt_prefixed', None),
+        ('mave_hgvs.py', 'get_mave_nt', 'k_get_mave_nt', None),
+    ],
 }
+KERNEL_EXTRA_SOURCES = {'KernelsMave': ['enums.py']}
+KERNEL_IMPORTS = {'KernelsTargeton': ' Model.Targeton', 'KernelsMave': ' Model.Seq Model.Vcf Model.Mave Model.PyStr'}
 
 
 def _kernel_extractor(name):
     def f() -> str:
         from . import pytrans
         targets = KERNEL_GROUPS[name]
-        sources = {m: _src(m) for m in sorted({t[0] for t in targets})}
+        sources = {m: _src(m) for m in sorted({t[0] for t in targets} | set(KERNEL_EXTRA_SOURCES.get(name, [])))}
         body = pytrans.translate(sources, targets)
         pre = '(* IntPatternBuilder(offset, span) *)\nRecord pt := mkPt { pt_offset : Z; pt_span : Z }.\n\n' if name == 'KernelsPattern' else ''
-        return ('(* translated from the source by harness/pytrans.py *)\nFrom VV Require Import Model.Base Model.Pattern Model.Transcript' + (' Model.Targeton' if name == 'KernelsTargeton' else '') + '.\n'
+        return ('(* translated from the source by harness/pytrans.py *)\nFrom VV Require Import Model.Base Model.Pattern Model.Transcript' + KERNEL_IMPORTS.get(name, '') + '.\n'
                 'Definition fact_extracted : bool := true.\n' + pre + body)
     f.__doc__ = 'Pure arithmetic kernels translated from the source by harness/pytrans.py (fail closed).'
     return f
